@@ -997,3 +997,71 @@ func c19InputLimits(c *Ctx, r *Report) {
 	}
 	r.ok(rule, "scan", "", fmt.Sprintf("%d size limits on the command's input; largest bundled workbook %s = %d bytes", n, maxName, maxSize))
 }
+
+// c19Imports: "sources that compile": which packages a generated file imports must not depend on
+// the profile unless every emitter that refers to the package is counted. At HEAD the import
+// blocks are emitted unconditionally (and the templates use each package in code that is always
+// emitted). An import line emitted under a condition is reported: for the profiles on which the
+// condition and the emitters disagree the output has an unused or a missing import.
+func c19Imports(c *Ctx, r *Report) {
+	const rule = "C19-R2-imports"
+	p := c.pkgs[genPath]
+	if p == nil {
+		return
+	}
+	n := 0
+	for _, f := range p.Syntax {
+		if strings.HasSuffix(c.fset.Position(f.Pos()).Filename, "_test.go") {
+			continue
+		}
+		for _, d := range f.Decls {
+			fd, ok := d.(*ast.FuncDecl)
+			if !ok || fd.Body == nil {
+				continue
+			}
+			top := map[ast.Stmt]bool{}
+			for _, s := range fd.Body.List {
+				top[s] = true
+			}
+			var stack []ast.Node
+			ast.Inspect(fd.Body, func(nd ast.Node) bool {
+				if nd == nil {
+					stack = stack[:len(stack)-1]
+					return true
+				}
+				stack = append(stack, nd)
+				es, ok := nd.(*ast.ExprStmt)
+				if !ok || !isGP(es.X) {
+					return true
+				}
+				call := es.X.(*ast.CallExpr)
+				isImport := false
+				for _, a := range call.Args {
+					if bl, ok := a.(*ast.BasicLit); ok && bl.Kind == token.STRING {
+						v := bl.Value
+						if len(v) > 6 && strings.HasPrefix(v, `"\"`) && strings.HasSuffix(v, `\""`) && !strings.ContainsAny(v[3:len(v)-3], " ({") {
+							isImport = true
+						}
+					}
+				}
+				if !isImport {
+					return true
+				}
+				n++
+				key := fmt.Sprintf("%s/import-line#%d", declName(fd), n)
+				cond := ""
+				for _, anc := range stack[:len(stack)-1] {
+					switch x := anc.(type) {
+					case *ast.IfStmt:
+						cond = "if " + exprStr(x.Cond)
+					case *ast.ForStmt, *ast.RangeStmt, *ast.SwitchStmt, *ast.CaseClause:
+						cond = fmt.Sprintf("a %T", x)
+					}
+				}
+				r.check(cond == "" && top[es], rule, key, c.pos(es.Pos()), "import line emitted unconditionally", "an import line of a generated file is emitted under "+cond+": for a product profile on which that condition and the code that refers to the package disagree, the generated source has an unused or a missing import and does not compile")
+				return true
+			})
+		}
+	}
+	r.need("import lines emitted by the generator", n, 4)
+}
